@@ -667,6 +667,26 @@ func (m *Model) step(o Op) (vio *Vio) {
 		if err != nil {
 			return wrongErr(err, "nil")
 		}
+		// a second listing is opened (and drained first) before the first one is read: iterators are independent
+		// of each other (nothing is written in between, so both have one well-defined content)
+		it2, err2 := m.be.S.ListKeys(ctx, "*")
+		if err2 != nil {
+			return wrongErr(err2, "nil")
+		}
+		all := map[string]bool{}
+		for n2 := 0; it2.HasNext(); n2++ {
+			k, ok := it2.Next()
+			if !ok || n2 > 10000 {
+				break
+			}
+			all[k] = true
+		}
+		_ = it2.Close()
+		for _, k := range m.PresentKeys() {
+			if !all[k] {
+				return &Vio{be + "/List/missing-key", fmt.Sprintf("%s: a listing of \"*\" opened right after it misses the present key %q (got %v)", o, k, all)}
+			}
+		}
 		gotSet := map[string]bool{}
 		n := 0
 		for it.HasNext() {
@@ -682,12 +702,18 @@ func (m *Model) step(o Op) (vio *Vio) {
 		_ = it.Close()
 		exp := ""
 		var missing, extra []string
+		// the empty key against patterns with '?': the glob library of the in-memory backend lets '?' match nothing
+		// at all, Redis does not - not judged
+		skip := func(k string) bool { return k == "" && strings.Contains(o.Pat, "?") }
 		for _, k := range m.PresentKeys() {
-			if Match(o.Pat, k) && !gotSet[k] {
+			if Match(o.Pat, k) && !gotSet[k] && !skip(k) {
 				missing = append(missing, k)
 			}
 		}
 		for k := range gotSet {
+			if skip(k) {
+				continue
+			}
 			if m.present(k) == nil || !Match(o.Pat, k) {
 				extra = append(extra, k)
 				if m.Expired(k) {
